@@ -25,6 +25,7 @@ ONE_APPEND_OPS = {
     "checkpoint": {"op": "checkpoint", "t": 0, "to_msg": 0},
 }
 SETUP = [{"op": "ensure_default"}, {"op": "message", "t": 0}]   # root has 2 frames before the race
+SETUP_COLD = SETUP + [{"op": "restart"}]                          # ... and the next-seq map is empty
 
 
 def gapfree(frames):
@@ -70,14 +71,14 @@ def concretise(cfg_name, case, variant):
     sched = [{"a": st["a"], "p": "cache.enter" if st["p"] == "log.flushed" else st["p"]} for st in case["sched"]]
     writers = sorted({st["a"] for st in sched})
     k1, k2 = variant
-    if cfg_name == "a":
+    if cfg_name in ("a", "d"):
         ops = {"w1": [dict(ONE_APPEND_OPS[k1])], "w2": [dict(ONE_APPEND_OPS[k2])]}
     elif cfg_name == "b":
         ops = {"w1": [{"op": k1, "t": 0, "summary": "s"}], "w2": [{"op": "message", "t": "new"}]}
     else:
         ops = {"w1": [{"op": k1, "t": 0, "summary": "s"}], "w2": [dict(ONE_APPEND_OPS[k2])]}
     actors = [{"name": w, "ops": ops.get(w, [])} for w in ["w1", "w2"] if w in writers or True]
-    return {"setup": SETUP, "actors": actors, "schedule": sched, "legal": case["legal"],
+    return {"setup": SETUP_COLD if cfg_name == "d" else SETUP, "actors": actors, "schedule": sched, "legal": case["legal"],
             "model_log": case["log"], "model_gapfree": case["gapfree"], "cfg": cfg_name,
             "variant": list(variant)}
 
@@ -116,13 +117,14 @@ def run(tier, seed):
     variants = {
         "a": [("message", "message"), ("message", "checkpoint"), ("run_spawned", "side_effects"),
               ("cursor_update", "run_ended")],
+        "d": [("message", "message"), ("run_ended", "checkpoint"), ("side_effects", "cursor_update")],
         "b": [("branch", None), ("handoff", None)],
         "c": [("branch", "message"), ("handoff", "run_ended")],
     }
     if not thorough:
-        variants = {"a": variants["a"][:2], "b": variants["b"], "c": variants["c"][:1]}
+        variants = {"a": variants["a"][:2], "b": variants["b"], "c": variants["c"][:1], "d": variants["d"][:1]}
     n = 0
-    for cfg_name in ("a", "b", "c"):
+    for cfg_name in ("a", "b", "c", "d"):
         g = tlc.run("MCGenStoreSeq", f"GenStoreSeq_{cfg_name}.cfg", workers=1, timeout=600)
         v.add_tlc(g, f"GenStoreSeq_{cfg_name}: all interleavings of two writers' hook points")
         if g.errors or g.timed_out:
@@ -170,8 +172,8 @@ def run(tier, seed):
                 v.drift({"case": hc["id"], "predicted": predn, "real": real})
         if not hc["legal"] and full and ok:
             v.drift({"case": hc["id"], "note": "schedule forbidden by the modelled locking was realised; log still gap-free"})
-        if hc["legal"] and full and ok and hc["cfg"] in ("a", "c", "b"):
-            traces_legal.append(res["trace"])
+        if hc["legal"] and full and ok:
+            traces_legal.append((hc["cfg"] == "d", res["trace"]))
         if len(v.cov["samples"]) < 3 and nontrivial:
             v.sample({"schedule": [f"{s['a']}:{s['p']}" for s in hc["schedule"]], "ops": hc["variant"],
                       "legal": hc["legal"], "steps": res["steps"], "real_log": [[f[0], f[1], f[2]] for f in frames]})
@@ -183,8 +185,8 @@ def run(tier, seed):
     tpath = os.path.join(wd, "sched_trace.ndjson")
     lines = []
     shift = len(SETUP)
-    for tr in traces_legal:
-        lines.append({"ev": "reset", "n": shift})
+    for cold, tr in traces_legal:
+        lines.append({"ev": "reset", "n": shift, "cold": cold})
         lines += [e for e in tr if e.get("actor", 0) in (1, 2)]
     if lines:
         write_ndjson(tpath, lines)
@@ -197,6 +199,32 @@ def run(tier, seed):
                         {"engine": "trace", "trace_file": tpath, "tlc": r.out[-2000:]})
         elif rejected or not r.ok:
             v.drift({"trace": "sched", "rejected": rejected[:1], "errors": r.errors[:2]})
+
+    # ---- 2b. the counterexample schedule of an un-guarded emitter, attempted on every stream kind:
+    #          delay frame n at log.pre until frame n+1 of the same stream is on disk
+    r = tlc.run("MCStoreSeq", "StoreSeq_taskunguarded.cfg", workers=4, timeout=300)
+    v.add_tlc(r, "StoreSeq with TaskGuarded = FALSE: counterexample expected (non-vacuity of GapFree for task pumps)")
+    v.cov["design_counterexamples"]["task_unguarded"] = "GapFree" in r.violated
+    r = tlc.run("MCStoreSeq", "StoreSeq_unguarded.cfg", workers=4, timeout=300)
+    v.add_tlc(r, "StoreSeq with Guarded = FALSE: counterexample expected (non-vacuity of GapFree for continuity writers)")
+    v.cov["design_counterexamples"]["unguarded"] = "GapFree" in r.violated
+    ocases = []
+    reps = 3 if thorough else 1
+    for rep in range(reps):
+        for sc, kinds in (("task", ["task"]), ("task_cancel", ["task"]), ("session", ["session"]), ("thread", ["session"]),
+                          ("thread", ["continuity"])):
+            ocases.append({"id": f"ovt-{sc}-{kinds[0]}-{rep}", "scenario": sc, "kinds": kinds, "wait_ms": 40})
+    ores = run_harness("overtake", ocases, wd, "overtake", shards=len(ocases), timeout=600)
+    for res in ores:
+        frames = res["summary"]["frames"]
+        ok, bad = gapfree(frames)
+        replay_ok = res["summary"]["replay_validated"] and res["summary"]["bad_lines"] == 0
+        v.add_eval({"overtake": res["id"].rsplit("-", 1)[0]}, len(frames) >= 3)
+        if not (ok and replay_ok):
+            v.violation(f"a later seq overtook a delayed append ({res['id']}): offending frame {bad}, overtaken={res['overtaken']}",
+                        {"engine": "overtake", "case": [c for c in ocases if c["id"] == res["id"]][0], "frames": frames})
+        if res["id"].startswith("ovt-task-task-0"):
+            v.sample({"overtake_attempt": res["id"], "frames": [[f[0], f[1], f[2]] for f in frames], "overtaken": res["overtaken"]})
 
     # ---- 3b. free-running clients through the real router, property-level trace validation
     nfree = 24 if thorough else 6
@@ -253,6 +281,14 @@ def replay(path, seed):
         ok, bad = gapfree(res["summary"]["frames"])
         print(json.dumps({"gapfree": ok, "bad": bad, "replay_validated": res["summary"]["replay_validated"],
                           "steps": res["steps"]}, indent=1))
+        if not ok or not res["summary"]["replay_validated"]:
+            print(f"VIOLATION property={PROP} replay={path}")
+            return 1
+        return 0
+    if case.get("engine") == "overtake":
+        res = run_harness("overtake", [case["case"]], wd, "replay")[0]
+        ok, bad = gapfree(res["summary"]["frames"])
+        print(json.dumps({"gapfree": ok, "bad": bad, "overtaken": res["overtaken"]}))
         if not ok or not res["summary"]["replay_validated"]:
             print(f"VIOLATION property={PROP} replay={path}")
             return 1
